@@ -46,7 +46,7 @@ ScenH == {S \in SUBSET (1 .. 12) : /\ Cardinality(S) \in {3, 4}
                                    /\ Cardinality(S \cap (7 .. 12)) >= 1}
 ScenHSmall == {{1, 2, 7}, {1, 3, 6, 9}, {2, 5, 8, 11}}
 ScenHSmall2 == {{1, 2, 7}, {1, 3, 6, 9}}
-ScenAbstract == {{1, 2}, {1, 2, 3}, {1, 2, 3, 4}}       \* layout generation: only ranks matter
+ScenAbstract == {{1, 2}, {1, 2, 3}, {1, 2, 3, 4}, {1, 2, 3, 4, 5}}       \* layout generation: only ranks matter
 
 APats == {Lit("x"), Lit("y"), Lit("xy"), Lit("zz"), Alt(<<"x", "y">>), Alt(<<"y", "xy">>),
           Pre("x"), Suf("y"), AnyP, SomeP}
@@ -164,6 +164,35 @@ QueriesS ==
   \cup {QBin("+", VM("on", <<"name">>, "left"), Plain(Sel("m", <<>>)), Opnd("sum", G("by", <<"name">>), Sel("n", <<>>))),
         QBin("+", VM("on", <<"hostname">>, "left"), Plain(Sel("m", <<>>)), Opnd("sum", G("by", <<"hostname">>), Sel("n", <<>>))),
         QBin("-", DefVM, Plain(Sel("m", <<>>)), Plain(Sel("n", <<>>)))}
+
+(* ---------------------------------------------------------------- universe R (regular-expression forms beyond alternation / dot-star) *)
+Anch(s, form) == Pat("anchor", s, <<form>>)
+Esc(s, classes) == Pat("esc", s, classes)
+EscDot(a, b) == Pat("escdot", "", <<a, b>>)
+Rep(s, c, lo, hi) == Pat("rep", s, <<c, lo, hi>>)
+Cls(s, chars) == Pat("class", s, chars)
+EmptyP == Pat("empty", "", <<>>)
+UR == << Ser("m", [a |-> "w1",  b |-> "p"]), Ser("m", [a |-> "w2",  b |-> "q"]), Ser("m", [a |-> "w12", b |-> "p"]),
+         Ser("m", [a |-> "ab",  b |-> "q"]), Ser("m", [a |-> "abb", b |-> "p"]), Ser("m", [a |-> "a.b", b |-> "q"]),
+         Ser("m", [a |-> "axb", b |-> "p"]), Ser("n", [a |-> "w1",  b |-> "p"]), Ser("n", [a |-> "ab",  b |-> "q"]) >>
+TailsR == {"", "1", "2", "12", "b", "bb", ".b", "xb", "w", "w1", "w2", "w12", "a", "a.", "ax", "ab", "abb", "a.b", "axb", "p", "q"}
+ScenR == {S \in SUBSET (1 .. 9) : /\ Cardinality(S) \in {4, 5}
+                                  /\ Cardinality(S \cap {1, 2, 3}) >= 1 /\ Cardinality(S \cap {4, 5}) >= 1
+                                  /\ Cardinality(S \cap {6, 7}) >= 1 /\ Cardinality(S \cap (1 .. 7)) >= 3}
+ScenRSmall == {{1, 3, 4, 6}, {2, 3, 5, 7, 8}}
+RPats == {Anch("ab", "^$"), Anch("ab", "^"), Anch("ab", "$"), Anch("w1", "^$"), Anch("", "^$"), EmptyP,
+          Esc("w", <<"d">>), Esc("w", <<"d", "d">>), Esc("", <<"w", "w">>), Esc("a", <<"w">>), EscDot("a", "b"),
+          Rep("a", "b", "1", "1"), Rep("a", "b", "2", "2"), Rep("a", "b", "1", "2"), Rep("w", "1", "1", "1"),
+          Cls("w", <<"1", "2">>), Cls("a", <<"b", "x">>), Lit("ab"), Alt(<<"w1", "ab">>), Pre("w"), Suf("b")}
+RSels == {Sel("m", <<M("a", op, p)>>) : op \in ReOps, p \in RPats}
+QueriesR ==
+  {QVec(Plain(s)) : s \in RSels \cup {Sel("m", <<>>), Sel("n", <<M("a", "=~", Anch("ab", "^$"))>>), Sel("n", <<M("a", "!~", Esc("w", <<"d">>))>>),
+                                        Sel("m", <<M("a", "!~", Esc("w", <<"d">>)), M("b", "=", Lit("p"))>>),
+                                        Sel("m", <<M("b", "=~", Anch("p", "^$")), M("a", "!=", Lit("ab"))>>)}}
+  \cup {QVec(Opnd(op, g, Sel("m", <<M("a", mop, p)>>))) : op \in AggOps, g \in {NoG, G("by", <<"b">>)}, mop \in ReOps,
+                                                          p \in {Anch("ab", "^"), Esc("w", <<"d">>), Rep("a", "b", "1", "2")}}
+  \cup {QBin("+", DefVM, Plain(Sel("m", <<M("a", "=~", Esc("", <<"w", "w">>))>>)), Plain(Sel("n", <<>>)))}
+QueriesRMC == {QVec(Plain(s)) : s \in RSels} \cup {QVec(Opnd("sum", G("by", <<"b">>), Sel("m", <<M("a", "!~", Esc("w", <<"d">>))>>)))}
 
 (* ---------------------------------------------------------------- universe D (label values with a non-word character) *)
 UD == << Ser("m", [a |-> "e-1", b |-> "p"]), Ser("m", [a |-> "e-2", b |-> "p"]), Ser("m", [a |-> "e-2", b |-> "q"]),
